@@ -89,7 +89,10 @@ fn test_size_limits() {
         assert_eq!(err.kind(), ErrorKind::InvalidOperation, "{}", spec);
     }
     assert_eq!(render("{{ 'a\nb'|indent(2) }}").unwrap(), "a\n  b");
-    assert_eq!(render("{{ '%5d|%.3f'|format(1, 2.0) }}").unwrap(), "    1|2.000");
+    assert_eq!(
+        render("{{ '%5d|%.3f'|format(1, 2.0) }}").unwrap(),
+        "    1|2.000"
+    );
     assert_eq!(render("{{ '%.65531g'|format(1.5) }}").unwrap(), "1.5");
     assert_eq!(render("{{ (1, 2) * 2 }}").unwrap(), "(1, 2, 1, 2)");
     assert_eq!(render("{{ ([1, 2] * 2)|list }}").unwrap(), "[1, 2, 1, 2]");
@@ -118,5 +121,55 @@ fn test_unguarded_recursion_is_an_error() {
     assert_eq!(render(&source).unwrap_err().kind(), ErrorKind::SyntaxError);
     let ternary = format!("{}0", "1 if false else ".repeat(100));
     assert_eq!(render(&format!("{{{{ {} }}}}", ternary)).unwrap(), "0");
-    assert_eq!(render("{{ not not not true }}{{ - - 1 }}").unwrap(), "False1");
+    assert_eq!(
+        render("{{ not not not true }}{{ - - 1 }}").unwrap(),
+        "False1"
+    );
+}
+
+#[test]
+fn test_long_chains_are_an_error() {
+    for source in [
+        format!("1{}", " if x".repeat(100_000)),
+        format!("1{}", "+1".repeat(100_000)),
+        format!("x{}", " and x".repeat(100_000)),
+        format!("x{}", "~x".repeat(100_000)),
+        format!("x{}", ".a".repeat(100_000)),
+        format!("x{}", "[0]".repeat(100_000)),
+        format!("x{}", "()".repeat(100_000)),
+        format!("x{}", "|e".repeat(100_000)),
+        format!("x{}", " is defined".repeat(100_000)),
+        format!("[x{}, 1]", ".a".repeat(1001)),
+        format!("f(x{}, 1)", "+1".repeat(1001)),
+    ] {
+        assert_eq!(eval_err(&source), ErrorKind::SyntaxError, "{:.40}", source);
+    }
+    for source in [
+        format!(
+            "{{% filter upper{} %}}{{% endfilter %}}",
+            "|upper".repeat(100_000)
+        ),
+        format!("{{% set x{} = 1 %}}", ".a".repeat(100_000)),
+    ] {
+        assert_eq!(
+            render(&source).unwrap_err().kind(),
+            ErrorKind::SyntaxError,
+            "{:.40}",
+            source
+        );
+    }
+}
+
+#[test]
+fn test_chains_below_the_limit() {
+    // chains below the limit still work, also when many of them sit next to each other
+    let chain = format!("1{}", "+1".repeat(1000));
+    assert_eq!(render(&format!("{{{{ {} }}}}", chain)).unwrap(), "1001");
+    let chain = format!("1{}", "+1".repeat(900));
+    let wide = format!("[{}]|length", vec![chain.as_str(); 20].join(", "));
+    assert_eq!(render(&format!("{{{{ {} }}}}", wide)).unwrap(), "20");
+    let many = format!("[{}]|length", vec!["[1].0"; 5000].join(", "));
+    assert_eq!(render(&format!("{{{{ {} }}}}", many)).unwrap(), "5000");
+    let filters = format!("'a'{}", "|upper".repeat(1000));
+    assert_eq!(render(&format!("{{{{ {} }}}}", filters)).unwrap(), "A");
 }
